@@ -502,7 +502,15 @@ pub fn c16(rep: &mut Report) {
             let mut variants: Vec<(Option<u16>, bool, bool)> = if ver == Ver::V5 { vec![(None, false, false), (Some(1u16), false, false)] } else { vec![(None, false, false)] };
             variants.push((None, true, false));
             variants.push((None, true, true));
+            // a server only learns from the CONNECT whose session to restore: restore_*() between the CONNECT
+            // and the CONNACK (encoded as failed_first = false, reapply_options = true, on the server side)
+            let restore_late_variants: Vec<Option<u16>> = if !as_client { if ver == Ver::V5 { vec![None, Some(1u16)] } else { vec![None] } } else { vec![] };
+            for rm in restore_late_variants {
+                variants.push((rm, false, true));
+            }
             for (rm, failed_first, reapply_options) in variants {
+                let restore_late = !failed_first && reapply_options;
+                let reapply_options = reapply_options && failed_first;
                 n += 1;
                 let r = guarded(|| {
                     let mut a = w.conn.clone();
@@ -510,12 +518,14 @@ pub fn c16(rep: &mut Report) {
                         let _ = a.notify_closed();
                     }
                     let mut b = fresh_conn::<u16>(&w.cfg, Some(ver));
-                    b.restore_packets(x_store.clone());
-                    b.restore_handled(&x_handled);
+                    if !restore_late {
+                        b.restore_packets(x_store.clone());
+                        b.restore_handled(&x_handled);
+                    }
                     // restored identifiers are in use
                     let mut direct: Vec<String> = vec![];
                     // the two restore calls are independent: the other order gives the same object
-                    {
+                    if !restore_late {
                         let mut b2 = fresh_conn::<u16>(&w.cfg, Some(ver));
                         b2.restore_handled(&x_handled);
                         b2.restore_packets(x_store.clone());
@@ -524,7 +534,7 @@ pub fn c16(rep: &mut Report) {
                             direct.push(format!("restore order matters: restore_qos2_publish_handled() before restore_packets() differs from the reverse order in {names:?}"));
                         }
                     }
-                    for p in &x_store {
+                    for p in x_store.iter().filter(|_| !restore_late) {
                         let id = p.packet_id() as u32;
                         let mut bb = b.clone();
                         if bb.register(id).is_ok() {
@@ -564,8 +574,22 @@ pub fn c16(rep: &mut Report) {
                             t.push(("notify_closed() before the CONNACK".into(), e));
                         }
                     }
-                    ta.extend(resume(&mut a, ver, as_client, rm));
-                    tb.extend(resume(&mut b, ver, as_client, rm));
+                    if restore_late {
+                        // server side: CONNECT received, then the session is restored, then the CONNACK is sent
+                        let cp = ConnProf { rm, ..ConnProf::basic(false) };
+                        recv(&mut a, &mut ta, cp.ap(ver));
+                        recv(&mut b, &mut tb, cp.ap(ver));
+                        b.restore_packets(x_store.clone());
+                        b.restore_handled(&x_handled);
+                        if a.vacancy() != b.vacancy() {
+                            direct.push(format!("restored after the CONNECT: vacancy {:?} on the original, {:?} on the restored object", a.vacancy(), b.vacancy()));
+                        }
+                        send(&mut a, &mut ta, AckProf::basic(true).ap(ver));
+                        send(&mut b, &mut tb, AckProf::basic(true).ap(ver));
+                    } else {
+                        ta.extend(resume(&mut a, ver, as_client, rm));
+                        tb.extend(resume(&mut b, ver, as_client, rm));
+                    }
                     let sa = a.snap();
                     let sb = b.snap();
                     // absolute clauses on the restored object: retransmission = the export, in order;
